@@ -18,9 +18,18 @@ from checks.common import quiet_context  # noqa: E402
 
 quiet_context()
 
+from checks import components as K  # noqa: E402
+from sim.world import install, reset_coba_globals  # noqa: E402
+
 for line in sys.stdin:
     req = json.loads(line)
     try:
+        # every request starts from the process-global state of a fresh interpreter (as every run of the check does: sim/runner.py _fresh),
+        # so an answer is a function of the request alone; the source's injected Ctrl-C is a fault of the check's own reads, not of this one
+        install()
+        reset_coba_globals()
+        K.TRANSIENT_FIRED.clear()
+        K.INTERRUPTS_ENABLED = False
         env = pickle.loads(base64.b64decode(req["env"]))
         rows = [canon(i) for i in env.read()]
         ans = {"rows": base64.b64encode(pickle.dumps(rows)).decode()}
